@@ -7,6 +7,8 @@ R-CLAMPCONVEX 'solve for the infinite line, then clamp the line parameter to the
 """
 import ast
 
+from ..core.peval import module_tables
+
 from ..core.astutil import u, call_name, calls, iter_stmts, const, ncmp, parent_map, resolved
 from ..core.index import AnalysisError, FuncInfo
 from .roles import parse_name, DIST_MODS
@@ -140,6 +142,21 @@ def _edge_enumeration(idx, f, loop, pm):
                         pairs.append((row(el.elts[0]), row(el.elts[1])))
                 if pairs and all(p_[0] is not None and p_[1] is not None for p_ in pairs):
                     return u(loop.iter.args[0]), pairs, "pairs returned by %s" % callee.name
+        return None
+    # (C) for i, j in TABLE: a module-level (or local) literal table of index pairs, both names index one array in the body
+    if isinstance(loop, ast.For) and isinstance(loop.target, ast.Tuple) and len(loop.target.elts) == 2 and all(isinstance(e, ast.Name) for e in loop.target.elts):
+        tab = loop.iter
+        if isinstance(tab, ast.Name):
+            tab = module_tables(f.module).get(tab.id) or resolved(f.node, tab)
+        if isinstance(tab, (ast.Tuple, ast.List)) and tab.elts and all(isinstance(e, (ast.Tuple, ast.List)) and len(e.elts) == 2 and all(isinstance(const(x), int) for x in e.elts) for e in tab.elts):
+            names = {e.id for e in loop.target.elts}
+            arrs = {}
+            for n in ast.walk(loop):
+                if isinstance(n, ast.Subscript) and isinstance(n.slice, ast.Name) and n.slice.id in names and isinstance(n.ctx, ast.Load):
+                    arrs.setdefault(u(n.value), set()).add(n.slice.id)
+            full = [a_ for a_, ns in arrs.items() if ns == names]
+            if len(full) == 1:
+                return full[0], [(const(e.elts[0]), const(e.elts[1])) for e in tab.elts], "index pairs of the table %s" % u(loop.iter)
         return None
     # (A) index-state loops: simulate the integer variables
     state = {}
